@@ -35,6 +35,7 @@ def check(run):
         run.guard("C06.3.cache-key-validity", cfg, lambda: rule_cache_key(run, F, cfg))
         run.guard("C06.4.batch-incremental", cfg, lambda: rule_routing(run, F, cfg))
         run.guard("C06.5.serialize-readonly", cfg, lambda: rule_serialize(run, F, cfg))
+        run.guard("C06.4.batch-incremental", cfg + "/exists", lambda: rule_exists_identity(run, F, cfg))
         from . import C05 as _C05, C07 as _C07   # lazy imports (C07 borrows nothing from here)
         b5 = run.borrow("C05", why="which lists are optimised must not depend on how the engine was built")
         run.guard("C06.via.C05.3.what-is-optimised", cfg, lambda: _C05.rule_what(b5, F, cfg))
@@ -354,3 +355,41 @@ def rule_serialize(run, F, cfg):
     f = F.fn("engine::Engine::serialize_raw")
     run.ob("C06.5.serialize-readonly", "takes-&self", "&'a engine::Engine" in f.j.get("sig", "") or "&" in f.j.get("sig", ""),
            f"serialize_raw takes &self ({f.j.get('sig','')[:80]})", config=cfg)
+
+
+
+def rule_exists_identity(run, F, cfg):
+    """`Blocker::add_filter` refuses a rule for which `NetworkFilterList::filter_exists` answers true. A rule loaded in
+    one batch is never refused, so the incremental engine equals the batch engine only if `true` means "this very rule
+    is stored": every `true` of filter_exists is reached under an equality of the stored rule's `id` with the id of
+    the rule asked about, the stored rule coming from a bucket of `self.filter_map`. (A wrong `false` only stores a
+    duplicate, which changes no answer.)"""
+    from analysis.guards import conditional_defs
+    f = F.fn("network_filter_list::NetworkFilterList::filter_exists")
+    run.touched(f)
+    trues, bad = 0, []
+    for kind, b, val, conds, _ in conditional_defs(f, 0):
+        if val == "false":
+            continue
+        trues += 1
+        if val == "true":
+            ok = any(v == 1 and re.search(r"\.id Eq arg:filter\.id\)$|^\(arg:filter\.id Eq .*\.id\)$", e) and "next(" in e for e, v in conds.items()) \
+                and any(v == 1 and re.search(r"HashMap::get\(arg:self\.filter_map, ", e) for e, v in conds.items())
+            if not ok:
+                bad.append((f.loc(b), val, sorted(conds)[:4]))
+        else:
+            # iterator form: ..any(|saved| saved.id == filter.id)
+            m = re.search(r"Iterator>::any\(.*HashMap::get\(arg:self\.filter_map.*closure\[([^\]]+)\]", val)
+            okc = False
+            if m:
+                for c in F.closures_of(f.name):
+                    rets = [v for k2, b2, v, c2, _ in conditional_defs(c, 0)]
+                    if rets and all(re.search(r"\.id Eq .*\.id\)$", r_) for r_ in rets):
+                        okc = True
+            if not okc:
+                bad.append((f.loc(b), val[:120], sorted(conds)[:4]))
+    run.floor("C06.4.batch-incremental", f"`true` answers of NetworkFilterList::filter_exists [{cfg}]", trues, 1)
+    run.ob("C06.4.batch-incremental", "exists-means-same-id", not bad,
+           "NetworkFilterList::filter_exists answers true only for a stored rule (an element of a bucket of self.filter_map) "
+           f"whose id equals the id of the rule asked about; other `true` answers: {bad[:2]}",
+           site=bad[0][0] if bad else f.loc(0), config=cfg)
